@@ -199,58 +199,69 @@ def assembly_cases(ctx):
         if first is None:
             first = dict(key=key, what=what, **rp)
 
-    dev = zoo.make_device("bar", ctx.rng, max_edge_length=1.0)
-    cases = [("static", 0.4), ("timedep", tdgl.Parameter(ramp, rate=10.0, time_dependent=True) * tdgl.Parameter(vecA, B=0.4))]
-    for name, A in cases:
+    # the same problem stated in the usual units and in units in which the numbers are tiny / huge (a site must
+    # contribute whatever its current density looks like in the chosen units)
+    cases = [("static", 0.4, "um", "uA"), ("timedep", tdgl.Parameter(ramp, rate=10.0, time_dependent=True) * tdgl.Parameter(vecA, B=0.4), "um", "uA"),
+             ("static_nm_A", 0.4, "nm", "A")]
+    if not ctx.quick:
+        cases += [("static_mm_nA", 0.4, "mm", "nA"), ("timedep_nm_mA", tdgl.Parameter(ramp, rate=10.0, time_dependent=True) * tdgl.Parameter(vecA, B=0.4), "nm", "mA")]
+    for name, A, lu_, cu_ in cases:
+        LU = {"um": 1e-6, "nm": 1e-9, "mm": 1e-3}[lu_]
+        CU = {"uA": 1e-6, "A": 1.0, "mA": 1e-3, "nA": 1e-9}[cu_]
+        sc_ = 1e-6 / LU
+        dev = zoo.make_device("bar", ctx.rng, max_edge_length=1.0, length_units=lu_, scale=sc_)
         out = os.path.join(str(ctx.work), f"c20_{name}.h5")
-        sol = tdgl.solve(dev, runs.options(solve_time=0.08, dt_init=1e-2, save_every=3, output_file=out), applied_vector_potential=A, terminal_currents={"source": 3.0, "drain": -3.0})
-        pos = np.array([[0.3, 0.2], [-1.0, 0.5], [1.5, -0.4]])
+        I_ = 3e-6 / CU
+        sol = tdgl.solve(dev, runs.options(solve_time=0.08, dt_init=1e-2, save_every=3, output_file=out, current_units=cu_), applied_vector_potential=A, terminal_currents={"source": I_, "drain": -I_})
+        pos = np.array([[0.3, 0.2], [-1.0, 0.5], [1.5, -0.4]]) * sc_
+        zq = 0.6 * sc_
         for step in range(sol.data_range[0], sol.data_range[1] + 1):
             sol.solve_step = step
             ctx.case(("assembly", name, step), nontrivial=step > 0)
             ctx.count("assembly_cases")
             for vector in (False, True):
-                parts = sol.field_at_position(pos, zs=0.6, vector=vector, return_sum=False, with_units=False)
-                total = sol.field_at_position(pos, zs=0.6, vector=vector, return_sum=True, with_units=False)
+                parts = sol.field_at_position(pos, zs=zq, vector=vector, return_sum=False, with_units=False)
+                total = sol.field_at_position(pos, zs=zq, vector=vector, return_sum=True, with_units=False)
                 if not np.allclose(total, parts.supercurrent + parts.normal_current, rtol=1e-13, atol=0):
                     fail("field-sum-of-parts", f"field_at_position total != supercurrent + normal parts (step {step})", step=step)
                 # independent SI sum from the stored site currents
-                Kt = (sol.current_density.to("uA/um").magnitude) * 1.0
-                ev = np.concatenate([pos, np.full((len(pos), 1), 0.6)], axis=1) * 1e-6
-                p3 = np.concatenate([dev.points, np.zeros((len(dev.points), 1))], axis=1) * 1e-6
-                ref, scale = si_biot_savart(ev, p3, Kt * 1.0, dev.areas * 1e-12)
+                Kt = sol.current_density.to("A/m").magnitude
+                ev = np.concatenate([pos, np.full((len(pos), 1), zq)], axis=1) * LU
+                p3 = np.concatenate([dev.points, np.zeros((len(dev.points), 1))], axis=1) * LU
+                ref, scale = si_biot_savart(ev, p3, Kt, dev.areas * LU**2)
                 got = np.asarray(total) * 1e-3  # mT -> T
                 want = ref if vector else ref[:, 2]
                 if np.abs(got - want).max() > 1e-9 * scale.max():
                     fail("field-vs-si", f"field_at_position differs from the SI Biot-Savart sum (step {step}, vector={vector})", step=step)
             # unit handling of the assembled quantities: other field units, positions given as (m, 3), quantities with units
-            f_mT = np.asarray(sol.field_at_position(pos, zs=0.6, with_units=False))
-            f_uT = np.asarray(sol.field_at_position(np.concatenate([pos, np.full((3, 1), 0.6)], axis=1), units="uT", with_units=False))
-            f_q = sol.field_at_position(pos, zs=np.full(3, 0.6), units="tesla", with_units=True)
-            f_H = np.asarray(sol.field_at_position(pos, zs=0.6, units="A/m", with_units=False))
+            f_mT = np.asarray(sol.field_at_position(pos, zs=zq, with_units=False))
+            f_uT = np.asarray(sol.field_at_position(np.concatenate([pos, np.full((3, 1), zq)], axis=1), units="uT", with_units=False))
+            f_q = sol.field_at_position(pos, zs=np.full(3, zq), units="tesla", with_units=True)
+            f_H = np.asarray(sol.field_at_position(pos, zs=zq, units="A/m", with_units=False))
             mu0 = em.ureg("mu_0").to_base_units().magnitude
             sc_f = np.abs(f_mT).max() + 1e-300
             if (np.abs(f_uT - 1e3 * f_mT).max() > 1e-9 * 1e3 * sc_f or np.abs(np.asarray(f_q.to("mT").magnitude) - f_mT).max() > 1e-9 * sc_f
                     or np.abs(f_H * mu0 * 1e3 - f_mT).max() > 1e-9 * sc_f):
                 fail("field-units", f"field_at_position is inconsistent between unit choices / input forms (step {step})", step=step)
-            ap = sol.vector_potential_at_position(pos, zs=0.6, return_sum=False, with_units=False)
-            a_nm = np.asarray(sol.vector_potential_at_position(pos, zs=0.6, units="uT * nm", with_units=False))
-            a_def = np.asarray(sol.vector_potential_at_position(pos, zs=0.6, with_units=False))
-            if np.abs(a_nm - 1e6 * a_def).max() > 1e-9 * 1e6 * (np.abs(a_def).max() + 1e-300):
+            ap = sol.vector_potential_at_position(pos, zs=zq, return_sum=False, with_units=False)
+            a_nm = np.asarray(sol.vector_potential_at_position(pos, zs=zq, units="uT * nm", with_units=False))
+            a_def = np.asarray(sol.vector_potential_at_position(pos, zs=zq, with_units=False))  # mT * length_units
+            fac_ = 1e3 * (LU / 1e-9)
+            if np.abs(a_nm - fac_ * a_def).max() > 1e-9 * fac_ * (np.abs(a_def).max() + 1e-300):
                 fail("potential-units", f"vector_potential_at_position is inconsistent between unit choices (step {step})", step=step)
-            at = sol.vector_potential_at_position(pos, zs=0.6, return_sum=True, with_units=False)
+            at = sol.vector_potential_at_position(pos, zs=zq, return_sum=True, with_units=False)
             if not np.allclose(at, ap["applied"] + ap["supercurrent_density"] + ap["normal_current_density"], rtol=1e-13, atol=0):
                 fail("potential-sum-of-parts", f"vector_potential_at_position total != applied + supercurrent + normal (step {step})", step=step)
             # Coulomb kernel in SI: (mu0/4pi) sum K a / r  -> mT*um
             Kt = sol.supercurrent_density.to("A/m").magnitude
-            r = np.sqrt(((pos[:, None, :] - dev.points[None, :, :]) ** 2).sum(axis=2) + 0.6**2) * 1e-6
-            ref = MU0 / (4 * np.pi) * np.einsum("jk,j,ij->ik", Kt, dev.areas * 1e-12, 1 / r) / (1e-3 * 1e-6)
+            r = np.sqrt(((pos[:, None, :] - dev.points[None, :, :]) ** 2).sum(axis=2) + zq**2) * LU
+            ref = MU0 / (4 * np.pi) * np.einsum("jk,j,ij->ik", Kt, dev.areas * LU**2, 1 / r) / (1e-3 * LU)
             if np.abs(ap["supercurrent_density"][:, :2] - ref).max() > 1e-9 * np.abs(ref).max() + 1e-30:
                 fail("potential-vs-si", f"vector potential of the supercurrent differs from (mu0/4pi) sum K a / r (step {step})", step=step)
             # the applied part is evaluated at the time of the frame
-            if name == "timedep":
+            if name.startswith("timedep"):
                 t_frame = float(sol.tdgl_data.state["time"])
-                want = ramp(0, 0, 0, t=t_frame) * vecA(pos[:, 0], pos[:, 1], np.full(3, 0.6))
+                want = ramp(0, 0, 0, t=t_frame) * vecA(pos[:, 0], pos[:, 1], np.full(3, zq))
                 if not np.allclose(ap["applied"], want, rtol=1e-12, atol=1e-15):
                     fail("applied-wrong-time", f"applied vector potential of frame {step} (time {t_frame}) evaluated at another time", step=step)
         # a single position is allowed by the documentation
